@@ -1,6 +1,6 @@
 #!/bin/bash
 # try_patch.sh <patch.diff> <PROP>... : apply a patch to a scratch copy of /repo/redun and run the given checks on it
-P=$1; shift
+P=$(realpath $1); shift
 T=$(mktemp -d /var/tmp/tp_XXXXXX)
 mkdir -p $T && rsync -a --exclude tests --exclude __pycache__ /repo/redun $T/ && (cd $T && patch -p1 -s < $P) || { echo "patch failed"; rm -rf $T; exit 3; }
 for p in "$@"; do /verif/check $p --root $T --no-evidence 2>&1 | grep -E "finding|ANALYSIS|^OK|^    " | cut -c1-400; done
